@@ -8,9 +8,11 @@ import (
 	"encoding/json"
 	"fmt"
 	"os"
+	"regexp"
 	"sort"
 	"strconv"
 	"strings"
+	"sync"
 	"testing"
 	"testing/synctest"
 	"time"
@@ -40,9 +42,10 @@ type Result struct {
 	Trivial  bool           `json:"trivial,omitempty"`
 	Sub      int            `json:"sub,omitempty"` // number of sub-evaluations (e.g. crash images) in this run
 	// On failure:
-	Tapes *TapeDump    `json:"tapes,omitempty"`
-	Trace []simrt.TraceEntry `json:"trace,omitempty"`
-	Known string       `json:"known,omitempty"`
+	Tapes     *TapeDump          `json:"tapes,omitempty"`
+	Trace     []simrt.TraceEntry `json:"trace,omitempty"`
+	Known     string             `json:"known,omitempty"`
+	KnownHits map[string]int     `json:"known_hits,omitempty"`
 }
 
 // TapeDump is the recorded decision tapes of a run.
@@ -77,14 +80,90 @@ func (c *Ctx) Probe(name string) {
 }
 
 // Violation records an oracle violation (first one wins).
-func (c *Ctx) Violation(clause, format string, args ...any) {
+//
+// A violation that matches an open entry of /verif/known-findings.json (same
+// property, class "oracle", clause, and the entry's regular expression over
+// detail + case) is counted in KnownHits instead, and the run goes on, so that
+// a recorded finding does not hide the rest of the exploration. It returns
+// true when a (new) violation was recorded.
+func (c *Ctx) Violation(clause, format string, args ...any) bool {
 	if !c.Res.OK {
-		return
+		return true
+	}
+	detail := fmt.Sprintf(format, args...)
+	if id := matchKnownFinding(c.Res.Prop, "oracle", clause, detail, c.Res.Case); id != "" {
+		if c.Res.KnownHits == nil {
+			c.Res.KnownHits = map[string]int{}
+		}
+		c.Res.KnownHits[id]++
+		return false
 	}
 	c.Res.OK = false
 	c.Res.Class = "oracle"
 	c.Res.Clause = clause
-	c.Res.Detail = fmt.Sprintf(format, args...)
+	c.Res.Detail = detail
+	return true
+}
+
+type knownEntry struct {
+	Property string `json:"property"`
+	ID       string `json:"id"`
+	Status   string `json:"status"`
+	Class    string `json:"class"`
+	Clause   string `json:"clause"`
+	Match    string `json:"match"`
+	re       *regexp.Regexp
+}
+
+var (
+	knownOnce    sync.Once
+	knownEntries []*knownEntry
+)
+
+func matchKnownFinding(prop, class, clause, detail string, cs any) string {
+	knownOnce.Do(func() {
+		p := os.Getenv("VERIF_KNOWN_FILE")
+		if p == "" {
+			return
+		}
+		b, err := os.ReadFile(p)
+		if err != nil {
+			return
+		}
+		var f struct {
+			Findings []*knownEntry `json:"findings"`
+		}
+		if json.Unmarshal(b, &f) != nil {
+			return
+		}
+		for _, k := range f.Findings {
+			if k.Status != "open" {
+				continue
+			}
+			re, err := regexp.Compile(k.Match)
+			if err != nil {
+				continue
+			}
+			k.re = re
+			knownEntries = append(knownEntries, k)
+		}
+	})
+	if len(knownEntries) == 0 {
+		return ""
+	}
+	var csJSON []byte
+	for _, k := range knownEntries {
+		if k.Property != prop || (k.Class != "" && k.Class != class) || (k.Clause != "" && k.Clause != clause) {
+			continue
+		}
+		if csJSON == nil {
+			csJSON, _ = json.Marshal(cs)
+		}
+		if k.re.MatchString(detail + "\n" + string(csJSON)) {
+			return k.ID
+		}
+	}
+	return ""
 }
 
 // Thorough reports whether the thorough tier is selected.
@@ -139,17 +218,17 @@ func envInt(name string, def int64) int64 {
 
 // ReplayFile is the on-disk replay format.
 type ReplayFile struct {
-	Prop   string            `json:"property"`
-	Seed   uint64            `json:"seed"`
-	Tier   string            `json:"tier"`
-	Knobs  map[string]string `json:"knobs,omitempty"`
-	Class  string            `json:"class"`
-	Clause string            `json:"clause"`
-	Detail string            `json:"detail"`
-	Tapes  TapeDump          `json:"tapes"`
+	Prop   string             `json:"property"`
+	Seed   uint64             `json:"seed"`
+	Tier   string             `json:"tier"`
+	Knobs  map[string]string  `json:"knobs,omitempty"`
+	Class  string             `json:"class"`
+	Clause string             `json:"clause"`
+	Detail string             `json:"detail"`
+	Tapes  TapeDump           `json:"tapes"`
 	Trace  []simrt.TraceEntry `json:"trace,omitempty"`
-	Case   any               `json:"case,omitempty"`
-	Shrink map[string]int    `json:"shrink,omitempty"`
+	Case   any                `json:"case,omitempty"`
+	Shrink map[string]int     `json:"shrink,omitempty"`
 }
 
 func sortedKeys(m map[string]int) []string {
@@ -201,4 +280,3 @@ func (c *Ctx) Bubble(f func()) {
 		c.emitAndExitIfFailed()
 	})
 }
-
